@@ -222,12 +222,13 @@ pub fn c07(out: &mut Out, tier: &str, rng: &mut Rng) {
 pub fn c15(out: &mut Out, tier: &str, rng: &mut Rng) {
     let (l3, nlong) = if tier == "thorough" { (9, 100_000) } else { (7, 10_000) };
     // construction: valid and invalid p
-    for p in [0.0, 1.0, 0.5, 1e-300, 1.0 - 1e-16, -0.0, -1e-300, 1.0000000000000002, 2.0, -1.0, f64::NAN, f64::INFINITY, f64::NEG_INFINITY] {
+    for p in [0.0, 1.0, 0.5, 1e-300, 1.0 - 1e-16, 5e-324, f64::from_bits(3), f64::MIN_POSITIVE, f64::from_bits(0x000f_ffff_ffff_ffff), f64::from_bits(0x3fef_ffff_ffff_ffff), 1.0 / 3.0, -0.0, -1e-300, 1.0000000000000002, 2.0, -1.0, f64::NAN, f64::INFINITY, f64::NEG_INFINITY] {
         if !out.next_case() { continue; }
         let r = catch_unwind(AssertUnwindSafe(|| Quantile::new(p)));
         let valid = p >= 0.0 && p <= 1.0;
         match &r {
-            Ok(q) => { out.t("Quantile", "new", "", &fw(p), &qwords(q).join(" ")); out.x(valid, || format!("Quantile::new({:?}) did not panic", p)); c15_invariants(out, q, p, &[]); }
+            Ok(q) => { out.t("Quantile", "new", "", &fw(p), &qwords(q).join(" ")); out.x(valid, || format!("Quantile::new({:?}) did not panic", p)); c15_invariants(out, q, p, &[]);
+                       let mut q2 = q.clone(); let mut seen = Vec::new(); for i in 0..7 { q2.add(i as f64 * 0.5); seen.push(i as f64 * 0.5); c15_invariants(out, &q2, p, &seen); } }
             Err(_) => { out.t("Quantile", "new", "", &fw(p), "panic"); out.x(!valid, || format!("Quantile::new({:?}) panicked", p)); }
         }
     }
